@@ -459,6 +459,10 @@ class DictDecoder:
             The bool result.
         """
         optional = {"tail", "text", "type"}
+        if "children" in generic_keys:
+            # The nameless generic element that holds the text of a parent
+            optional.add("qname")
+
         keys = set(keys)
         return generic_keys - optional <= keys <= generic_keys
 
